@@ -35,6 +35,14 @@ TCommit == IsEv("Commit") /\ LET r == Rec[l] IN
           /\ UNCHANGED backend
           /\ act' = [name |-> "Commit", L |-> r.L, list |-> r.list, res |-> r.res]
 
+TReopen == IsEv("Reopen") /\ LET r == Rec[l] IN
+  /\ store' = StoreOf(r.store)
+  /\ pts' = StoreOf(r.pts)
+  /\ IF Strict THEN Reopen
+     ELSE /\ q' = NoQuery
+          /\ UNCHANGED <<backend, m>>
+          /\ act' = [name |-> "Reopen"]
+
 TQuery == IsEv("Query") /\ LET r == Rec[l] IN
   /\ UNCHANGED pts
   /\ IF Strict THEN Query(r.c, r.hp, r.p, r.hs, r.s, r.d) /\ q'.kv = r.kv /\ q'.keys = r.keys
@@ -43,7 +51,7 @@ TQuery == IsEv("Query") /\ LET r == Rec[l] IN
           /\ UNCHANGED vars
           /\ act' = [name |-> "Query"]
 
-TNext == TReset \/ TNew \/ TCommit \/ TQuery
+TNext == TReset \/ TNew \/ TCommit \/ TReopen \/ TQuery
 TSpec == TInit /\ [][TNext]_tvars
 
 \* point lookups agree with the model as well
